@@ -27,7 +27,7 @@ THEOREMS = ['Otel.C06.' + t for t in (
 HARNESSES = [Harness('s_c06', ['harness/s_c06.cc'], sdk_srcs=sdk_sources('common', 'resource', 'version', 'metrics'),
                      includes=SDK_INCLUDES)]
 H = 's_c06'
-RULE = ('histories of 20-200 operations (create handle / Add / Collect) on a real MeterProvider with 1-3 explicit readers of '
+RULE = ('histories of 20-200 operations (create handle / Add / Collect; 8% of them with real-thread `race` operations: 1-4 recorder threads against a collecting thread) on a real MeterProvider with 1-3 explicit readers of '
         'mixed temporality, 0-3 views, 1-3 instrument names x {counter, up-down} x {long, double}, several handles per '
         'instrument, attribute sets from a pool of 6; every collection output of model and implementation compared, and the '
         'property evaluated on the implementation output by an independent reference. non-trivial = the history has at '
@@ -62,6 +62,10 @@ def corpus():
     c(line(['C'], [], ['collect 0', 'create 0 cd', 'collect 0', 'add 0 0 -5', 'collect 0', 'add 0 0 5', 'collect 0']), 'negative-on-counter')
     c(line(['D'], [], ['create 0 cl', 'add 0 0 -3', 'collect 0', 'add 0 2 0', 'collect 0']), 'negative-on-counter')
     c(line(['D', 'D', 'C'], [], ['create 0 ul', 'collect 2', 'add 0 1 -4', 'collect 1', 'collect 1', 'add 0 1 9', 'collect 0', 'collect 2']), 'mixed-readers')
+    # real threads: recorders racing a collector
+    c(line(['D', 'C'], [], ['create 0 cl', 'add 0 3 5', 'race 0 3 500 0 10', 'collect 1', 'add 0 1 2', 'collect 0', 'collect 1']), 'race')
+    c(line(['D'], [], ['create 0 ud', 'create 1 cl', 'add 1 2 7', 'add 0 1 -3', 'race 0 4 300 0 8', 'add 0 1 1', 'add 1 2 1', 'collect 0']), 'race')
+    c(line(['C', 'D'], [(0, 'c'), (0, 'c')], ['create 0 cd', 'race 0 2 1000 0 20', 'collect 1', 'race 0 1 10 1 2', 'collect 0']), 'race')
     # malformed
     c('met cfg D - ; add 0 1 5', 'malformed')
     c('met cfg X - ; create 0 cl', 'malformed')
@@ -70,7 +74,7 @@ def corpus():
     return out
 
 
-def gen_history(rng, nops, shape):
+def gen_history(rng, nops, shape, shape_race=False):
     nr = rng.choice([1, 1, 2, 2, 3]) if shape != 'single' else 1
     readers = [rng.choice('DC') for _ in range(nr)]
     if shape == 'single-delta':
@@ -85,8 +89,12 @@ def gen_history(rng, nops, shape):
     handles = []
     pcollect = rng.choice([0.1, 0.25, 0.5])
     pcreate = rng.choice([0.02, 0.05, 0.15])
+    prace = 0.03 if shape_race else 0.0
     for _ in range(nops):
         r = rng.random()
+        if handles and rng.random() < prace:
+            ops.append(f'race {rng.randrange(len(handles))} {rng.randrange(1, 5)} {rng.choice([1, 50, 200, 600])} {rng.randrange(nr)} {rng.choice([1, 2, 5, 12])}')
+            continue
         if not handles or r < pcreate:
             k = rng.choice(KINDS) if rng.random() < 0.6 or not handles else rng.choice(handles)[1]
             n = rng.randrange(names) if rng.random() < 0.6 or not handles else rng.choice(handles)[0]
@@ -117,7 +125,9 @@ def generate(rng, tier):
     for i in range(n):
         shape = rng.choice(['mixed', 'mixed', 'mixed', 'single', 'single-delta'])
         nops = rng.choice([20, 40, 80, 120, 200])
-        out.append(Case(gen_history(rng, nops, shape), H, ('history', shape, f'ops<={nops}')))
+        race = rng.random() < 0.08
+        out.append(Case(gen_history(rng, nops if not race else min(nops, 80), shape, race), H,
+                        ('history', shape, f'ops<={nops}') + (('real-thread-race',) if race else ())))
     # malformed stream
     for i in range(40):
         l = gen_history(rng, 12, 'mixed')
@@ -202,6 +212,55 @@ def oracle(case, out):
                 for r in range(nr):
                     d = since[r].setdefault((name, kind), {})
                     d[t[2]] = d.get(t[2], 0) + v
+        elif t[0] == 'race':
+            # collect r ; T*N + 1 concurrent/late adds of one unit ; K collects: printed per stream is the sum of the
+            # delta points (delta reader) or the last cumulative points - conservation makes it schedule-independent
+            hd, T, N, r, K = (int(x) for x in t[1:6])
+            name, kind = handles[hd]
+            adds = {}
+            for th in range(T):
+                adds[str(th % 3 + 1)] = adds.get(str(th % 3 + 1), 0) + N
+            adds['1'] = adds.get('1', 0) + 1
+            total.setdefault((name, kind), {})
+            for a, v in adds.items():
+                total[(name, kind)][a] = total[(name, kind)].get(a, 0) + v
+                for rr in range(nr):
+                    d = since[rr].setdefault((name, kind), {})
+                    d[a] = d.get(a, 0) + v
+            m = re.fullmatch(r'race \[(.*)\]', ob)
+            if not m:
+                return ('recorded-concurrently-with-collections', 'unreadable race summary: ' + ob)
+            got = {}
+            if m.group(1):
+                for part in m.group(1).split(' | '):
+                    label, body = part.split(' ', 1)
+                    got[label] = dict(kv.split('=') for kv in body[1:-1].split(',')) if body != '{}' else {}
+            streams = {}
+            for (nm, kd) in dict.fromkeys(handles):
+                for j in range(nstreams(nm, kd)):
+                    streams[f'{nm}.{kd}.{j}'] = (nm, kd)
+            for label in got:
+                if label not in streams:
+                    return ('only-configured-streams', f'{label} in race summary')
+            for label, key in streams.items():
+                want = since[r].get(key, {}) if readers[r] == 'D' else total.get(key, {})
+                pts = got.get(label, {})
+                for a in set(want) | set(pts):
+                    if pts.get(a, '0') != str(want.get(a, 0)):
+                        return ('recorded-concurrently-with-collections',
+                                f'race by reader {r} ({readers[r]}) stream {label} attrs {a}: readers received {pts.get(a, "0")}, recorded {want.get(a, 0)}')
+            first, last = ncollect + 1, ncollect + K + 1
+            ncollect += K + 1
+            if readers[r] == 'D':
+                for label, key in streams.items():
+                    if label in got:
+                        # the stream of the raced handle reports in the last collection; on the single-reader fast path any
+                        # other stream reported (if at all) in the first one, which took what was pending before the race
+                        if key == (name, kind) or nr > 1:
+                            last_end[r][label] = f'#{last}'
+                        else:
+                            last_end[r][label] = f'#{first}'
+            since[r] = {}
         elif t[0] == 'collect':
             r = int(t[1])
             ncollect += 1
@@ -294,6 +353,12 @@ def bad_case(ops):
                     return True
             elif t[0] == 'collect' and len(t) == 2:
                 if not t[1].isdigit() or int(t[1]) >= len(readers):
+                    return True
+            elif t[0] == 'race' and len(t) == 6:
+                if not all(x.isdigit() for x in t[1:]):
+                    return True
+                hd, T, N, r, K = (int(x) for x in t[1:])
+                if hd >= len(handles) or not (1 <= T <= 4) or N > 5000 or r >= len(readers) or not (1 <= K <= 64):
                     return True
             else:
                 return True
